@@ -96,10 +96,10 @@ pub fn exec_op(op: &Op, handles: &mut Handles) -> String {
 
 pub fn guarded(op: &Op, handles: &mut Handles) -> Obs {
     match catch_unwind(AssertUnwindSafe(|| exec_op(op, handles))) {
-        Ok(s) => Obs::Done(s),
+        Ok(s) => Obs::Done(canonical(&s)),
         Err(p) => match p.downcast_ref::<Injected>() {
             Some(inj) => Obs::Victim(inj.site),
-            None => Obs::Done(format!("panic:{}", panic_msg(&*p))),
+            None => Obs::Done(canonical(&format!("panic:{}", panic_msg(&*p)))),
         },
     }
 }
@@ -209,6 +209,7 @@ fn concurrent(
                         let o = guarded(op, &mut handles);
                         obs.push(o);
                         if check_each {
+                            crate::sched::suspended(|| {
                             for (j, h) in handles.iter().enumerate() {
                                 if let Some(h) = h {
                                     if let Err(m) = h.unchanged() {
@@ -223,10 +224,11 @@ fn concurrent(
                                     }
                                 }
                             }
+                            });
                         }
                     }
                 }));
-                drop(handles);
+                crate::sched::suspended(|| drop(handles));
                 sim.finish(tid);
                 if let Err(p) = body {
                     viol.push(Violation {
@@ -339,7 +341,8 @@ pub fn execute(w: &Workload, source: Source, cfg: &ExecCfg) -> Outcome {
     Outcome { obs, reference, report, violations }
 }
 
-/// Strips process-specific function addresses so that observations can be compared across processes.
+/// Strips function addresses: they differ between processes (ASLR), between codegen units and,
+/// under Miri, between two casts of the same function, so they are no part of any observation.
 pub fn canonical(s: &str) -> String {
     let b = s.as_bytes();
     let mut out = String::with_capacity(s.len());
